@@ -18,7 +18,7 @@ FUNCTIONS = [
     "cnvlib.cnary.CopyNumArray.drop_low_coverage, skgenome.gary.GenomicArray.by_arm/by_chromosome/concat/sort, skgenome.intersect.iter_slices",
 ]
 BOUNDS = {
-    "bins": "quick: 3 bins on one chromosome or 2 + 2 on two (chr1, chrX); thorough: 4 / 3 + 2; coordinates symbolic, sorted, disjoint",
+    "bins": "quick: 3 bins on one chromosome or 2 + 2 on two (chr1, chrX); thorough: 4 / 3 + 2 (the 3 + 2 tables with concrete weights 0.5, 1, 0.25, 0.75, 0.625); coordinates symbolic, sorted, disjoint",
     "values": "log2 symbolic in [-30, 10] (null-coverage reachable), weight symbolic in [0, 1] (0 reachable), depth symbolic >= 0; gene names concrete incl. duplicates, Antitarget and ignored names",
     "methods": "none, haar, hmm, hmm-tumor, hmm-germline; skip_low on/off; min_weight 0 / 0.3; outlier filter off (it needs > 50 bins) or an arbitrary solver-chosen outlier mask",
     "arms": "one arm per chromosome (an arm split needs > 101 bins)",
@@ -244,6 +244,11 @@ def _cfgs():
         for lay, tier in ((["chr1"] * 3, "quick"), (["chr1", "chr1", "chrX", "chrX"], "quick"), (["chr1"] * 4, "thorough"), (["chr1"] * 3 + ["chrX"] * 2, "thorough")):
             for skip_low, mw in ((False, 0), (True, 0), (True, 0.3)):
                 c = {"chroms": lay, "method": method, "skip_low": skip_low, "min_weight": mw}
+                if len(lay) == 5:
+                    # five bins with symbolic weights AND depths: the quotient-of-sums claims went
+                    # `unknown` / past their budget in the first thorough run; concrete weights here
+                    # (one below min_weight 0.3, none zero: symbolic weights stay with the smaller tables)
+                    c["weights"] = [0.5, 1.0, 0.25, 0.75, 0.625]
                 t = tier
                 if method in ("hmm-tumor", "hmm-germline") and (mw or len(lay) > 3 or skip_low):
                     t = "thorough"
@@ -258,7 +263,7 @@ def _cfgs():
                     splits = [("l0<-15", "l0>=-15"), (f"l{len(lay) - 1}<-15", f"l{len(lay) - 1}>=-15")]
                     if method != "none":
                         splits.append(("l1<-15", "l1>=-15"))
-                    if mw:
+                    if mw and len(lay) != 5:
                         splits.append(("w0<0.3", "w0>=0.3"))
                     out.extend(split_cases(c, *splits))
                 else:
